@@ -392,7 +392,7 @@ func runHistory(c Case) (res *h.Result) {
 	}
 	inherited := map[key]*refpkg.Cell{}
 	kinds := map[string]bool{}
-	conflict, twoHop, through := false, false, false
+	conflict, twoHop, through, besidePlaceholder, placeholderDefined := false, false, false, false, false
 	fail := func(step int, msg string) *h.Result {
 		res.Err = fmt.Sprintf("after step %d of [%s]: %s", step+1, strings.Join(w.text, " "), msg)
 		return res
@@ -405,6 +405,12 @@ func runHistory(c Case) (res *h.Result) {
 		for k, cell := range inherited {
 			before[k] = cell
 		}
+		besidePlaceholder = false
+		if op.K == "setq" || op.K == "defvar" || op.K == "defun" {
+			if v := m.View(op.A, op.N); v.Pending && v.Own == nil && len(v.Direct)+len(v.Trans) == 0 {
+				besidePlaceholder = true
+			}
+		}
 		wasInherited := false
 		if op.K == "setq" && !op.Arg && op.A >= 0 {
 			v := m.View(op.A, op.N)
@@ -416,6 +422,9 @@ func runHistory(c Case) (res *h.Result) {
 		}
 		if wasInherited {
 			through = true
+		}
+		if besidePlaceholder {
+			placeholderDefined = true // (the step was inside the domain and has been applied to the model)
 		}
 		kinds[op.K] = true
 		for _, src := range forms(op, i, w.cur) {
@@ -460,6 +469,10 @@ func runHistory(c Case) (res *h.Result) {
 	}
 	if conflict {
 		res.Classes = append(res.Classes, "own-definition-beside-inherited")
+	}
+	if placeholderDefined {
+		res.Classes = append(res.Classes, "defined-beside-exported-unbound-name")
+		res.NonTrivial = true
 	}
 	if twoHop {
 		res.Classes = append(res.Classes, "two-hop-candidate")
@@ -532,6 +545,7 @@ func genHistory(rt *rapid.T) Case {
 	// steps are drawn from the steps that build or retract exactly that, in any order
 	pOwner := rapid.IntRange(0, c.NP-1).Draw(rt, "owner")
 	qUser := (pOwner + rapid.IntRange(1, c.NP-1).Draw(rt, "user")) % c.NP
+	third := 3 - pOwner - qUser
 	nm := rapid.SampledFrom(focus).Draw(rt, "thread-name")
 	def, undef := "setq", "makunbound"
 	if refpkg.IsFn(nm) {
@@ -541,6 +555,9 @@ func genHistory(rt *rapid.T) Case {
 		{K: def, A: pOwner, N: nm}, {K: "export", A: pOwner, N: nm}, {K: "use", A: qUser, Q: pOwner},
 		{K: def, A: pOwner, N: nm}, {K: "export", A: pOwner, N: nm}, {K: "use", A: qUser, Q: pOwner},
 		{K: undef, A: pOwner, N: nm}, {K: "unexport", A: pOwner, N: nm}, {K: "unuse", A: qUser, Q: pOwner},
+		// export before bind: the user defines the name itself while the owner only exports it, and
+		// uses / unuses the third package meanwhile (unuse-package rebuilds the user's whole table)
+		{K: def, A: qUser, N: nm}, {K: "use", A: qUser, Q: third}, {K: "unuse", A: qUser, Q: third},
 	}
 	for i := 0; i < n; i++ {
 		for try := 0; try < 4; try++ {
@@ -618,6 +635,7 @@ var (
 	enumVar   = h.Prop[Case]{Name: "enum-var", Run: runHistory}
 	enumFn    = h.Prop[Case]{Name: "enum-fn", Run: runHistory}
 	enumMixed = h.Prop[Case]{Name: "enum-mixed", Run: runHistory}
+	enumPlace = h.Prop[Case]{Name: "enum-placeholder", Run: runHistory}
 )
 
 func TestC13(t *testing.T) {
@@ -625,7 +643,8 @@ func TestC13(t *testing.T) {
 		"over 3 fresh packages x variables x,y x functions f,g, values are unique tokens; after EVERY step every name is read from inside every package (boundp/value, fboundp/call) and as p:name and p::name " +
 		"from common-lisp-user and compared with a model that recomputes visibility from the use/export graph (own definition, else exported definition of a directly used package, else unbound; " +
 		"two-hop visibility, two used packages exporting the same name and CL name-conflict situations are don't-care or outside the generated domain). " +
-		"Non-trivial: some package resolved a name to another package's definition and a later unuse/unexport/makunbound/fmakunbound changed that resolution. Distinct by history. " +
+		"Non-trivial: some package resolved a name to another package's definition and a later unuse/unexport/makunbound/fmakunbound changed that resolution, " +
+		"or a package defined a name that a used package exports without having bound it. Distinct by history. " +
 		"Sub-property import: a name imported with Package.Import (Go extension interface) keeps resolving to the owner's current definition through every sequence of 4 use/unuse/export/unexport/redefinition steps (non-trivial: the sequence contains an unuse or unexport).")
 	h.Assume("the reference model internal/refpkg (about 250 lines, recomputes everything from the graph on every query)")
 	h.Assume("steps and probes are Lisp text evaluated through slip.ReadString/Eval; in-package is used to move between packages; packages are removed with slip.RemovePackage after each history and *features* / CL's user list are reset by the harness")
@@ -633,17 +652,26 @@ func TestC13(t *testing.T) {
 	h.RunProp(t, enumVar, 0)
 	h.RunProp(t, enumFn, 0)
 	h.RunProp(t, enumMixed, 0)
+	h.RunProp(t, enumPlace, 0)
 	h.RunProp(t, importProp, 0)
 	h.RunProp(t, history, h.N(8000, 100000))
 
-	lv, lm := 4, 3
+	lv, lm, lp := 4, 3, 5
 	if h.Thorough() {
-		lv, lm = 6, 4
+		lv, lm, lp = 6, 4, 7
 	}
-	h.Note("exhaustive: 2 packages x {use,unuse,export,unexport,setq,makunbound} on x to length %d; same with defun/fmakunbound on f; 3 packages x 14 steps on x and f to length %d", lv, lm)
+	h.Note("exhaustive: 2 packages x {use,unuse,export,unexport,setq,makunbound} on x to length %d; same with defun/fmakunbound on f; 3 packages x 14 steps on x and f to length %d; 3 packages x 8 steps (a uses/unuses b and c, b exports/binds x, a setq/defvar x) to length %d", lv, lm, lp)
 	h.Enumerate(t, enumVar, func(yield func(Case) bool) { enumerate(2, alphabet(2, []string{"x"}, false), lv, yield) })
 	h.Enumerate(t, enumFn, func(yield func(Case) bool) { enumerate(2, alphabet(2, []string{"f"}, false), lv, yield) })
 	h.Enumerate(t, enumMixed, func(yield func(Case) bool) { enumerate(3, alphabet(3, []string{"x", "f"}, true), lm, yield) })
+	// export before bind with three packages: b exports x (bound or not), a uses / unuses b and c and defines
+	// x itself; b::x must never be bound by a's steps and a's own x must survive every later unuse
+	h.Enumerate(t, enumPlace, func(yield func(Case) bool) {
+		enumerate(3, []refpkg.Op{
+			{K: "use", A: 0, Q: 1}, {K: "use", A: 0, Q: 2}, {K: "unuse", A: 0, Q: 1}, {K: "unuse", A: 0, Q: 2},
+			{K: "export", A: 1, N: "x"}, {K: "setq", A: 1, N: "x"}, {K: "setq", A: 0, N: "x"}, {K: "defvar", A: 0, N: "x"},
+		}, lp, yield)
+	})
 	if h.C.Shard == 0 {
 		// a name imported through the Go extension interface (Package.Import): 8 step kinds, length 4
 		h.Enumerate(t, importProp, func(yield func(ImpCase) bool) {
